@@ -11,6 +11,7 @@ import FqModel.Total
                  (exact class, and value for bitops / radix / intdiv / index / slice) — DIVERGE.
   `cast <int|float|big|bool|string|indent> <V>` TAB `ok <V>` | `fail` | `panic`     gojqx.CastFn
   `opts <V>` TAB `ok depth=… …` | `err` | `panic`                                  OptionsFromValue
+  `preview <V string> n:<string_truncate>` TAB `ok <runes kept>` | `panic`        previewValue (preview.go)
   `optsfmt <V>` TAB `ok <size prefix|->` | `err` | `panic`       the bits format closure it returns, run
 
   V is the token grammar of harness/cmd/c13/pool.go.
@@ -559,12 +560,26 @@ def optsfmtVerdict (tok obs : String) : String :=
       | .resource _ => "resource"
     verdict model obs
 
+/-- `preview s:<hex> n:<limit>`: the real previewValue; observation = runes kept -/
+def previewVerdict (stok ltok obs : String) : String :=
+  match parseTok stok, parseTok ltok with
+  | some (.str bs), some (.int st) =>
+    if obs == "panic" then "PROPFAIL previewValue-slice-out-of-range" else
+    let model := match previewTruncate (runeCount bs) st with
+      | .ok n => s!"ok {n}"
+      | .err _ => "err"
+      | .panic _ => "panic"
+      | .resource _ => "resource"
+    verdict model obs
+  | _, _ => "BADOP token"
+
 def stepC13 (op obs : String) : String :=
   match words op with
   | "call" :: fn :: toks => if toks.isEmpty then "BADOP call" else callVerdict fn toks obs
   | ["cast", kind, tok] => castVerdict kind tok obs
   | ["opts", tok] => optsVerdict tok obs
   | ["optsfmt", tok] => optsfmtVerdict tok obs
+  | ["preview", stok, ltok] => previewVerdict stok ltok obs
   | _ => "BADOP op"
 
 def main : IO Unit := run stepC13
